@@ -731,7 +731,9 @@ class GuardRule(FactRule):
                     self.violate(ctx, 'unguarded-store', '%s %s %s without the guard(s): %s' % (
                         pstr(lhs, self.subst), op, show(rhs) if rhs is not None else '', ', '.join(missing)),
                         inst='%s:%s' % (field, ','.join(missing)))
-        lp = pstr(lhs, self.subst)
+        # the assigned object is named as written: a local with a single definition must not be replaced by that
+        # definition here (declaring  t = c->src  does not write c->src)
+        lp = pstr(lhs, None) if strip(lhs).k == 'var' else pstr(lhs, self.subst)
         ts = self.kill(ts, lp)
         # result of an inlined helper: facts about its returned local now speak about lhs
         if rhs is not None and op == '=' and strip(rhs).k == 'call':
